@@ -346,7 +346,8 @@ def run_property(mod, pid, tier, seed, only_shard=None, jobs=None):
 			if v['mech'] in seen_mech:
 				continue
 			seen_mech.add(v['mech'])
-			rp = rdir / f'{tier}-seed{seed}-{v["mech"]}.json'
+			import re
+			rp = rdir / (re.sub(r'[^A-Za-z0-9._-]+', '_', f'{tier}-seed{seed}-{v["mech"]}')[:150] + '.json')
 			rp.write_text(jdump(dict(property=pid, tier=tier, seed=seed, shard=v.get('shard'), violation=v), indent=1))
 			print(f'VIOLATION property={pid} replay={rp} mech={v["mech"]} :: {str(v["msg"])[:300]}')
 		rc = EXIT_VIOLATION
